@@ -99,10 +99,12 @@ def op_desc_between_atoms(rng, m):
     old = t.to_text()
     # find two consecutive plain atoms "CC" in the text (chain continuation) outside brackets
     cand = [mm.start() + 1 for mm in re.finditer(r"(?<![\[A-Za-z])[CNO](?=[CNO](?![a-z]))", old) if old.count("[", 0, mm.start()) == old.count("]", 0, mm.start())]
+    # ... and positions where the next atom follows a closed branch or a ring-closure digit: 'C(C)|C', 'C1|C'
+    cand += [mm.end() for mm in re.finditer(r"[)0-9](?=[=#]?[CNOc](?![a-z]))", old) if old.count("[", 0, mm.start()) == old.count("]", 0, mm.start()) and old.count("|", 0, mm.start()) % 2 == 0]
     if not cand:
         return None
     i = rng.choice(cand)
-    new = old[:i] + rng.choice(["[>]", "[$]", "[<2]"]) + old[i:]
+    new = old[:i] + rng.choice(["[>]", "[$]", "[<2]", "=[$]"]) + old[i:]
     full = m.to_text()
     if full.count(old) != 1:
         return None
